@@ -293,12 +293,15 @@ def harness_hash():
     return _hh
 
 
-def prune_cache(keep=10):
+def prune_cache(keep=10, min_age_s=3 * 3600):
+    """drop old cache directories; never one touched recently (another check may be building into it)"""
     if not os.path.isdir(CACHE):
         return
+    now = time.time()
     ds = sorted((os.path.join(CACHE, d) for d in os.listdir(CACHE)), key=os.path.getmtime)
     for d in ds[:-keep]:
-        shutil.rmtree(d, ignore_errors=True)
+        if now - os.path.getmtime(d) > min_age_s:
+            shutil.rmtree(d, ignore_errors=True)
 
 
 def build_lib(cfg, sources=None):
